@@ -711,6 +711,60 @@ def loss_set():
     return C
 
 
+BSRCH = "mpf/core/ball_search.py"
+
+
+def ball_search_set():
+    """BallSearch.give_up: the balls written off are exactly the balls the playfield held (not the ones merely promised
+    to it), so that afterwards the counts still sum to the number of balls known"""
+    C = ContractSet("C04s", "ball search gives up: counts stay consistent")
+    C.strings = False
+    C.cls("MpfController", fields={})
+    C.cls("EventManager", fields={})
+    C.ext("EventManager.post", model=lambda I, env, a, k: (emit(I, "post", event=a[0]), NONE)[1],
+          trusted_reason="event posting (C01)")
+    C.cls("PlayfieldI", fields=dict(balls=Int, available_balls=Int,
+                                    config=Rec(ball_search_failed_action=Union(Const("new_ball"), Const("end_game"),
+                                                                               Const("end_ball")))))
+    C.ext("PlayfieldI.add_ball", model=lambda I, env, a, k: (emit(I, "add_ball"), NONE)[1],
+          trusted_reason="Playfield.add_ball (P8, main set): requests one ball to the playfield")
+    C.cls("GameI", fields={})
+    C.ext("GameI.end_game", model=lambda I, env, a, k: (emit(I, "end_game"), NONE)[1], trusted_reason="Game.end_game (C06)")
+    C.ext("GameI.end_ball", model=lambda I, env, a, k: (emit(I, "end_ball"), NONE)[1], trusted_reason="Game.end_ball (C06)")
+    C.cls("BallControllerI", fields=dict(num_balls_known=Int))
+    C.cls("BallSearch", file=BSRCH, bases=["MpfController"], fields=dict(
+        playfield=ObjS("PlayfieldI"),
+        machine=ObjS("MachineController", events=ObjS("EventManager"), game=Opt(ObjS("GameI")),
+                     ball_controller=ObjS("BallControllerI"))))
+    C.ext("BallSearch.disable", model=lambda I, env, a, k: (emit(I, "search.disable"), NONE)[1],
+          trusted_reason="BallSearch.disable: stops the search timers")
+    C.ghost.update(dict(n_replaced=Int))
+
+    def add_ball(I, env, a, k):
+        I.write_field(I.ghost, "n_replaced", VInt(I.force(I.read_field(I.ghost, "n_replaced")).t + 1))
+        return NONE
+    C.ext("PlayfieldI.add_ball", model=add_ball,
+          trusted_reason="Playfield.add_ball (P8, main set): requests one ball to the playfield")
+    C.fn("BallSearch._compensate_lost_balls", params=dict(lost_balls=Int), inline=True, no_inv=True)
+    C.fn("BallSearch.give_up",
+         requires=[("counts are not negative", "self.playfield.balls >= 0")],
+         loops_by_text={"range(lost_balls": LoopSpec(
+             invariant=[("one replacement requested per lost ball so far", "ghost.n_replaced == old_loop(ghost.n_replaced) + _")],
+             modifies=["ghost.n_replaced"], roles={"_": "counter"})},
+         ensures=[("GU1: the balls written off are exactly the balls the playfield HELD: num_balls_known drops by "
+                   "playfield.balls (not by what was merely promised to the playfield and still sits in a device), and "
+                   "the playfield ends with 0 balls and 0 available balls - the counts still sum to the balls known",
+                   "self.machine.ball_controller.num_balls_known == old(self.machine.ball_controller.num_balls_known) - "
+                   "old(self.playfield.balls) and self.playfield.balls == 0 and self.playfield.available_balls == 0"),
+                  ("GU2: with the 'new_ball' action (and balls left) one replacement is requested per ball written off",
+                   "implies(self.machine.game is not None and self.playfield.config['ball_search_failed_action'] == "
+                   "'new_ball' and self.machine.ball_controller.num_balls_known > 0, ghost.n_replaced - "
+                   "old(ghost.n_replaced) == old(self.playfield.balls))")],
+         modifies=["self.machine.ball_controller.num_balls_known", "self.playfield.balls",
+                   "self.playfield.available_balls", "ghost.n_replaced"], raises={})
+    return C
+
+
 def build_extra():
     # 'MPF never fires a ball towards a device that has no room': every physical attempt of the eject loop - the first
     # one AND every retry - comes after the target's readiness gate (C05's contract on _ejecting, clause E1)
@@ -719,4 +773,10 @@ def build_extra():
     c05.pid = "C04b"
     c05.replay_pid = "C05"
     c05.only_verify = ["OutgoingBallsHandler._ejecting"]
-    return [c05, counter_set(), loss_set()]
+    # balls in transit reserve their place at the target (C05's incoming-balls contracts, restricted)
+    c05i = C05.incoming_set()
+    c05i.pid = "C04i"
+    c05i.replay_pid = "C05"
+    c05i.only_verify = ["IncomingBallsHandler.get_num_incoming_balls", "IncomingBallsHandler.add_incoming_ball",
+                        "IncomingBall.ball_arrived", "IncomingBall.did_not_arrive"]
+    return [c05, counter_set(), loss_set(), c05i, ball_search_set()]
